@@ -78,7 +78,13 @@ def concurrent_part(ctx, quick):
         def counting(p):
             ops = [c["op"] for th in p["prog"].values() for c in th]
             return all(o in ("get", "hits", "misses", "reset") for o in ops) and "get" in ops
-        jobs += [(p, "o%d" % i, 1, False, 0, ctx.seed, True) for i, p in enumerate(progs) if counting(p)][:(120 if quick else 100000)]
+        cj = [(p, "o%d" % i, 1, False, 0, ctx.seed, True) for i, p in enumerate(progs) if counting(p)]
+        if quick:   # both cache kinds, every setup, spread evenly
+            per = {}
+            for j in cj:
+                per.setdefault((j[0]["kind"], json.dumps(j[0]["setup"], sort_keys=True)), []).append(j)
+            cj = [j for group in per.values() for j in group[:18]]
+        jobs += cj
         if not quick:
             wide = ctx.generate("Gen_CacheLin", ctx.cfg("lin2.cfg", LIN_CFG.format(
                 threads='{"t1", "t2"}', calls="CallsWide", maxprog=2, maxrest=1)))
